@@ -11,6 +11,7 @@ Variable P : expr -> Prop.
 Hypothesis HConst : forall l, P (EConst l).
 Hypothesis HVar : forall x, P (EVar x).
 Hypothesis HList : forall items, Forall P items -> P (EList items).
+Hypothesis HMap : forall pairs, Forall (fun p => P (fst p) /\ P (snd p)) pairs -> P (EMap pairs).
 Hypothesis HNeg : forall e, P e -> P (ENeg e).
 Hypothesis HNot : forall e, P e -> P (ENot e).
 Hypothesis HBin : forall op a b, P a -> P b -> P (EBin op a b).
@@ -31,6 +32,9 @@ Fixpoint expr_ind' (e : expr) : P e :=
   | EConst l => HConst l
   | EVar x => HVar x
   | EList items => HList items (all items)
+  | EMap pairs => HMap pairs
+      ((fix go (l : list (expr * expr)) : Forall (fun p => P (fst p) /\ P (snd p)) l :=
+          match l with [] => Forall_nil _ | x :: r => Forall_cons x (conj (expr_ind' (fst x)) (expr_ind' (snd x))) (go r) end) pairs)
   | ENeg a => HNeg a (expr_ind' a)
   | ENot a => HNot a (expr_ind' a)
   | EBin op a b => HBin op a b (expr_ind' a) (expr_ind' b)
@@ -177,6 +181,13 @@ Qed.
 Definition visit_list (l : list expr) (t : tstate) : tstate := fold_left (fun t e => visit_expr e t) l t.
 Definition visit_kw {K} (l : list (K * expr)) (t : tstate) : tstate := fold_left (fun t p => visit_expr (snd p) t) l t.
 
+Definition visit_pairs (l : list (expr * expr)) (t : tstate) : tstate :=
+  fold_left (fun t p => visit_expr (snd p) (visit_expr (fst p) t)) l t.
+
+Lemma visit_pairs_fix (l : list (expr * expr)) : forall t,
+  (fix go (l : list (expr * expr)) (t : tstate) := match l with [] => t | (k, v) :: r => go r (visit_expr v (visit_expr k t)) end) l t = visit_pairs l t.
+Proof. induction l as [|[k v] l IH]; intros t; [reflexivity|]. unfold visit_pairs. cbn [fold_left fst snd]. apply IH. Qed.
+
 Lemma visit_list_fix l : forall t,
   (fix go (l : list expr) (t : tstate) := match l with [] => t | x :: r => go r (visit_expr x t) end) l t = visit_list l t.
 Proof. induction l; intros t; cbn; auto. Qed.
@@ -193,6 +204,7 @@ Lemma visit_expr_eq e t : visit_expr e t =
   | EConst _ => t
   | EVar x => t_lookup x t
   | EList items => visit_list items t
+  | EMap pairs => visit_pairs pairs t
   | ENeg a | ENot a => visit_expr a t
   | EBin _ a b | EAnd a b | EOr a b => visit_expr b (visit_expr a t)
   | ECmp a rest => visit_kw rest (visit_expr a t)
@@ -203,7 +215,7 @@ Lemma visit_expr_eq e t : visit_expr e t =
   | ECall f args kwargs => visit_kw kwargs (visit_list args (t_lookup f t))
   end.
 Proof.
-  destruct e; cbn [visit_expr]; auto; try apply visit_list_fix; try apply visit_cmp_fix.
+  destruct e; cbn [visit_expr]; auto; try apply visit_list_fix; try apply visit_cmp_fix; try apply visit_pairs_fix.
   rewrite visit_list_fix. apply visit_kw_fix.
 Qed.
 
@@ -222,12 +234,23 @@ Proof.
   - eapply tsoft_trans; [apply He, Hn|]. apply IH. eapply tsoft_nonempty, He, Hn.
 Qed.
 
+Lemma visit_pairs_soft (l : list (expr * expr)) :
+  Forall (fun p => (forall t, nonempty t -> tsoft t (visit_expr (fst p) t)) /\ (forall t, nonempty t -> tsoft t (visit_expr (snd p) t))) l ->
+  forall t, nonempty t -> tsoft t (visit_pairs l t).
+Proof.
+  induction 1 as [|p l [Hk Hv] Hl IH]; intros t Hn; cbn.
+  - apply tsoft_refl, Hn.
+  - assert (S1 := Hk t Hn). assert (S2 := Hv _ (tsoft_nonempty _ _ S1)).
+    eapply tsoft_trans; [apply S1|]. eapply tsoft_trans; [apply S2|]. apply IH. eapply tsoft_nonempty, S2.
+Qed.
+
 Lemma visit_expr_soft e : forall t, nonempty t -> tsoft t (visit_expr e t).
 Proof.
   induction e using expr_ind'; intros t Hn; rewrite visit_expr_eq.
   - apply tsoft_refl, Hn.
   - apply tsoft_lookup, Hn.
   - apply visit_list_soft; auto.
+  - apply visit_pairs_soft; auto.
   - auto.
   - auto.
   - eapply tsoft_trans; [apply IHe1, Hn|]. apply IHe2. eapply tsoft_nonempty, IHe1, Hn.
@@ -266,8 +289,8 @@ Fixpoint walk_arms (els : option (list stmt)) (arms : list (expr * list stmt)) (
 Definition visit_macro (dc : bool) (params : list name) (defaults : list (name * expr)) (body : list stmt) (t : tstate) : tstate :=
   walk_list body (visit_params params defaults (if dc then t_assign N_caller t else t)).
 
-Definition visit_binds (binds : list (name * expr)) (t : tstate) : tstate :=
-  fold_left (fun t b => t_assign (fst b) (visit_expr (snd b) t)) binds t.
+Definition visit_binds (binds : list (target * expr)) (t : tstate) : tstate :=
+  fold_left (fun t b => assign_target (fst b) (visit_expr (snd b) t)) binds t.
 
 Lemma walk_eq st t : walk st t =
   match st with
@@ -281,7 +304,7 @@ Lemma walk_eq st t : walk st t =
       let t := t_assign N_loop t in
       let t := t_pop (walk_list body t) in
       t_pop (match els with Some b => walk_list b (t_push t) | None => t_push t end)
-  | SSet x e => t_assign x (visit_expr e t)
+  | SSet tg e => assign_target tg (visit_expr e t)
   | SSetBlock x body _ => t_assign x (t_pop (walk_list body (t_push t)))
   | SWith binds body => t_pop (walk_list body (visit_binds binds (t_push t)))
   | SMacro nm ps ds body => t_assign nm (t_pop (visit_macro true ps ds body (t_push t)))
@@ -378,7 +401,7 @@ Lemma visit_binds_step binds t : nonempty t -> tstep t (visit_binds binds t).
 Proof.
   unfold visit_binds. revert t. induction binds as [|[x e] l IH]; intros t Hn; cbn [fold_left fst snd].
   - apply tstep_refl, Hn.
-  - assert (S1 := visit_expr_step e t Hn). assert (S2 := tstep_assign x _ (tstep_nonempty _ _ S1)).
+  - assert (S1 := visit_expr_step e t Hn). assert (S2 := assign_target_step x _ (tstep_nonempty _ _ S1)).
     eapply tstep_trans; [apply S1|]. eapply tstep_trans; [apply S2|]. apply IH. eapply tstep_nonempty, S2.
 Qed.
 
@@ -402,7 +425,7 @@ Proof.
     assert (Hn2 := tstep_nonempty _ _ S2).
     apply tsoft_step, tstep_push_pop; auto.
     destruct els as [b|]; [apply walk_list_step; auto; apply push_nonempty|apply tstep_refl, push_nonempty].
-  - assert (S1 := visit_expr_step e tr Hn). eapply tstep_trans; [apply S1|]. apply tstep_assign. eapply tstep_nonempty, S1.
+  - assert (S1 := visit_expr_step e tr Hn). eapply tstep_trans; [apply S1|]. apply assign_target_step. eapply tstep_nonempty, S1.
   - assert (S1 := tsoft_step _ _ (scoped_body_soft body tr H Hn)). eapply tstep_trans; [apply S1|]. apply tstep_assign. eapply tstep_nonempty, S1.
   - apply tsoft_step, tstep_push_pop; auto.
     assert (S1 := visit_binds_step binds _ (push_nonempty tr)). eapply tstep_trans; [apply S1|].
@@ -520,6 +543,13 @@ Proof. intros H. apply (Gpres_fold (fun e t => visit_expr e t) l H). Qed.
 Lemma Gpres_visit_kw {K} (l : list (K * expr)) : Forall (fun p => Gpres (visit_expr (snd p))) l -> Gpres (visit_kw l).
 Proof. intros H. apply (Gpres_fold (fun p t => visit_expr (snd p) t) l H). Qed.
 
+Lemma Gpres_visit_pairs (l : list (expr * expr)) :
+  Forall (fun p => Gpres (visit_expr (fst p)) /\ Gpres (visit_expr (snd p))) l -> Gpres (visit_pairs l).
+Proof.
+  intros H. apply (Gpres_fold (fun p t => visit_expr (snd p) (visit_expr (fst p) t)) l).
+  eapply Forall_impl; [|exact H]. intros p [Hk Hv]. apply (Gpres_comp _ _ Hk Hv).
+Qed.
+
 Lemma Gpres_ext f g : (forall t, f t = g t) -> Gpres g -> Gpres f.
 Proof. intros E Hg ms cs tm tc H. rewrite !E. apply Hg, H. Qed.
 
@@ -529,6 +559,7 @@ Proof.
   - apply Gpres_id.
   - apply Gpres_lookup.
   - apply Gpres_visit_list; auto.
+  - apply Gpres_visit_pairs; auto.
   - auto.
   - auto.
   - apply (Gpres_comp _ _ IHe1 IHe2).
@@ -589,8 +620,8 @@ Qed.
 
 Lemma Gpres_visit_binds binds : Gpres (visit_binds binds).
 Proof.
-  unfold visit_binds. apply (Gpres_fold (fun b t => t_assign (fst b) (visit_expr (snd b) t)) binds).
-  apply Forall_forall. intros b _. apply (Gpres_comp _ _ (Gpres_visit_expr (snd b)) (Gpres_assign (fst b))).
+  unfold visit_binds. apply (Gpres_fold (fun b t => assign_target (fst b) (visit_expr (snd b) t)) binds).
+  apply Forall_forall. intros b _. apply (Gpres_comp _ _ (Gpres_visit_expr (snd b)) (Gpres_assign_target (fst b))).
 Qed.
 
 Lemma Gpres_walk st : Gpres (walk st).
@@ -610,7 +641,7 @@ Proof.
     { intros tr. reflexivity. }
     apply (Gpres_comp (fun t => t_pop (inner (t_push (visit_expr it t)))) (fun t6 => t_pop (match els with Some b => walk_list b (t_push t6) | None => t_push t6 end))); [|exact P2].
     apply (Gpres_comp (visit_expr it) (fun t => t_pop (inner (t_push t))) (Gpres_visit_expr it) (Gpres_scoped _ P1)).
-  - apply (Gpres_comp _ _ (Gpres_visit_expr e) (Gpres_assign x)).
+  - apply (Gpres_comp _ _ (Gpres_visit_expr e) (Gpres_assign_target x)).
   - apply (Gpres_comp _ _ (Gpres_scoped_body body H) (Gpres_assign x)).
   - apply (Gpres_scoped (fun t => walk_list body (visit_binds binds t))).
     apply (Gpres_comp _ _ (Gpres_visit_binds binds)). apply Gpres_walk_list; auto.
